@@ -71,6 +71,7 @@ type FuncSpec struct {
 	Dead      []string // canaries that must be unreachable (proved, not assumed)
 	Callbacks map[string]string // callee expr -> callback contract name
 	CallSites map[string]string // call site -> overriding contract key
+	CommitMayFail bool
 }
 
 type SpecFunc struct {
@@ -281,7 +282,12 @@ func (sp *Specs) loadFile(file string) {
 			f := strings.Fields(strings.ReplaceAll(rest, ",", " "))
 			mustF(curF, base, rl.line).Applies = f[0]
 			for i := 1; i < len(f); i++ {
-				if f[i] != "rollback" {
+				switch f[i] {
+				case "rollback":
+				case "commit":
+					// the call may fail after the closure returned nil (commit error): then too the state is restored
+					curF.CommitMayFail = true
+				default:
 					curF.Rollback = append(curF.Rollback, f[i])
 				}
 			}
@@ -363,6 +369,7 @@ func (sp *Specs) loadFile(file string) {
 			if m == nil {
 				panic(fmt.Sprintf("%s:%d: bad func header %q", base, rl.line, t))
 			}
+			m = rebalanceHeader(hdr, m)
 			fs := &FuncSpec{Pkg: pkg, Header: hdr, Loops: map[int]*LoopSpec{}, Trusted: trusted, File: base, Line: rl.line, Props: props, Callbacks: map[string]string{}, CallSites: map[string]string{}}
 			name := m[3]
 			if m[2] != "" {
@@ -560,4 +567,31 @@ func (sp *Specs) scanAssumptions() []string {
 	out := append([]string{}, sp.Trusted...)
 	sort.Strings(out)
 	return out
+}
+
+
+// rebalanceHeader corrects the parameter/result split of a header whose parameter types contain
+// parentheses (func types): the parameter list ends at the parenthesis matching its opening one.
+func rebalanceHeader(hdr string, m []string) []string {
+	idx := headerRe.FindStringSubmatchIndex(hdr)
+	if idx == nil || idx[8] < 0 {
+		return m
+	}
+	open := idx[8] - 1 // position of '(' before group 4
+	depth := 0
+	for i := open; i < len(hdr); i++ {
+		switch hdr[i] {
+		case '(':
+			depth++
+		case ')':
+			depth--
+			if depth == 0 {
+				out := append([]string{}, m...)
+				out[4] = hdr[open+1 : i]
+				out[5] = strings.TrimSpace(hdr[i+1:])
+				return out
+			}
+		}
+	}
+	return m
 }
